@@ -18,8 +18,9 @@
 (*       references; SetBaggageItem changes the span's own items only; children  *)
 (*       started later inherit them; BaggageItem/ForeachBaggageItem read them    *)
 (*   OT3 tags: `span.kind` selects the span kind at creation only; `error`       *)
-(*       true -> status Error, false -> status Ok; every other tag becomes an    *)
-(*       attribute with the documented value conversion                          *)
+(*       true -> status Error; false -> status Ok (compatibility text) or no     *)
+(*       status at all (what the package's own tests pin down): both admitted;   *)
+(*       every other tag becomes an attribute with the documented conversion     *)
 (*   OT4 LogFields / LogKV / FinishOptions.LogRecords -> one event per record    *)
 (*       whose attributes are the converted fields in the order given            *)
 (*   OT5 SetOperationName -> name; Finish / FinishWithOptions end the span once  *)
@@ -124,7 +125,7 @@ OTStart(st, o) ==
                    f |-> Cardinality({i \in 1..Len(rs) : Tgt(st, rs[i]) = j /\ rs[i].t = "f"})]]
       links == {LinkVec(rest), LinkVec(us)}
       sts == IF o.err = "true" THEN {[code |-> "Error", desc |-> ""]}
-             ELSE IF o.err = "false" THEN {[code |-> "Ok", desc |-> ""]} ELSE {Unset}
+             ELSE IF o.err = "false" THEN {[code |-> "Ok", desc |-> ""], Unset} ELSE {Unset}
       sp == NewSpan(n, o.name, IF hasP THEN Tgt(st, p) ELSE 0, hasP /\ p.to = 0,
                     IF hasP THEN st.spans[Tgt(st, p)].tr ELSE n, links,
                     PutAll([k \in 1..NK |-> NoAttr], o.tags), {KindOf(o.kind)}, sts, UnionBag(st, us), smp)
@@ -157,7 +158,7 @@ OTApply(st, o) ==
     [] o.op = "SetTag"   -> Upd(st, o.i, LAMBDA s : IF s.ended > 0 THEN s ELSE [s EXCEPT !.attrs[o.k] = Conv(o.c)])
     [] o.op = "SetKind"  -> st                         \* the kind is fixed at creation
     [] o.op = "SetErr"   -> Upd(st, o.i, LAMBDA s : IF s.ended > 0 THEN s ELSE [s EXCEPT !.stsA =
-                               SetSts(@, IF o.c = "true" THEN {"Error"} ELSE IF o.c = "false" THEN {"Ok"} ELSE {"Unset"}, "")])
+                               SetSts(@, IF o.c = "true" THEN {"Error"} ELSE IF o.c = "false" THEN {"Ok", "Unset"} ELSE {"Unset"}, "")])
     [] o.op = "Log"      -> Upd(st, o.i, LAMBDA s : IF s.ended > 0 THEN s ELSE AddEv(s, [name |-> "", ts |-> "", ks |-> EvAttrs(o.kvs)]))
     [] o.op = "SetName"  -> Upd(st, o.i, LAMBDA s : IF s.ended > 0 THEN s ELSE [s EXCEPT !.name = o.name])
     [] o.op = "Finish"   -> Upd(st, o.i, LAMBDA s : IF s.ended > 0 THEN s
